@@ -135,7 +135,7 @@ func (u *Upstream) stateWithoutLock() *UpstreamState {
 func (u *Upstream) Close(ctx context.Context, opts ...UpstreamCloseOption) error {
 	beforeStatus := u.state.Swap(streamStatusDraining)
 	if beforeStatus == streamStatusDraining {
-		return errors.New("already draining")
+		return errors.Errorf("already draining: %w", errors.ErrStreamClosed)
 	}
 	if beforeStatus != streamStatusResuming {
 		if err := u.waitToSendAllDataPointsAndReceiveAllAck(ctx); err != nil {
